@@ -146,6 +146,7 @@ class Contract:
         uses=(),
         result_term=None,
         raises_props=None,
+        bounded_cases=None,
     ):
         self.target = target
         # sig: one dict, or a list of dicts (alternative signature groups varying together)
@@ -178,6 +179,9 @@ class Contract:
         # the function's own `runs`-style clause must state equality with this same term
         self.result_term = result_term
         self.raises_props = set(raises_props) if raises_props is not None else None
+        # input cases the executor cannot reach: name -> dict(scope=..., reason=...); checked natively
+        # over the generator's inputs of that case and reported as bounded, never as proved
+        self.bounded_cases = bounded_cases or {}
         self.result_alias = result_alias
         self.call_native = call_native
         self.gen = gen
@@ -187,6 +191,9 @@ class Contract:
         # the function's own `runs`-style clause must state equality with this same term
         self.result_term = result_term
         self.raises_props = set(raises_props) if raises_props is not None else None
+        # input cases the executor cannot reach: name -> dict(scope=..., reason=...); checked natively
+        # over the generator's inputs of that case and reported as bounded, never as proved
+        self.bounded_cases = bounded_cases or {}
 
 
 LEMMAS: dict[str, "Lemma"] = {}
@@ -390,6 +397,14 @@ class _S:
 
     def is_none(self, x):
         return x is None
+
+    def same_or_eq(self, x, y):
+        """equal values where None only equals None"""
+        if x is None or y is None:
+            return x is y
+        if is_sym(x, y):
+            return L.lift(x) == L.lift(y)
+        return x == y
 
     # strings ---------------------------------------------------------------
     def concat(self, *xs):
